@@ -1025,6 +1025,17 @@ impl Property for C17 {
         }
         Ok(o)
     }
+    fn expected_probes(&self) -> Vec<&'static str> {
+        vec![
+            "I/O error expected",
+            "directory cycle or looping link below a reference directory",
+            "libc fault (errno) delivered",
+            "same file reached twice within one list",
+            "short read / EINTR on an input file",
+            "link cycle answered with an I/O error",
+            "un-stat-able plain file reported (optional)",
+        ]
+    }
     fn extra_shrinks(&self, case: &Case) -> Vec<Case> {
         // drop arguments and world entries, keeping meta and argv in step
         let s = &case.scenarios[0];
